@@ -15,6 +15,8 @@ import (
 	"crypto/ed25519"
 	"crypto/elliptic"
 	"crypto/rsa"
+	"crypto/x509"
+	"crypto/x509/pkix"
 	"encoding/asn1"
 	"encoding/base64"
 	"encoding/binary"
@@ -24,6 +26,7 @@ import (
 	"os"
 	"path/filepath"
 	"strings"
+	"time"
 
 	"github.com/edutko/putty-go/ppk"
 	"golang.org/x/crypto/ssh"
@@ -457,6 +460,40 @@ func (g *c02) ssh1Encrypted(tag string, k rsaKey, comment []byte, spec Sx) {
 	g.ssh1(tag, data, spec)
 }
 
+// ---------- the SubjectPublicKeyInfo inside a certificate ----------
+
+// certSPKI issues a certificate for pub under a throw-away Ed25519 CA (deterministic signatures; the
+// certificate's own key is never used to sign, so it can be any integer) and observes the
+// "Public key" child of the certificate's description.
+func (g *c02) certSPKI(tag string, pub any, spec Sx) {
+	sub := NewRng(g.c.R.U64()) // never hand the case stream's generator to a crypto API
+	caPriv := ed25519.NewKeyFromSeed(sub.Bytes(32))
+	parent := &x509.Certificate{SerialNumber: big.NewInt(1), Subject: pkix.Name{CommonName: "C02 test CA"},
+		NotBefore: time.Unix(1700000000, 0), NotAfter: time.Unix(1800000000, 0), PublicKey: caPriv.Public()}
+	tmpl := &x509.Certificate{SerialNumber: big.NewInt(2), Subject: pkix.Name{CommonName: "C02 " + tag},
+		NotBefore: time.Unix(1700000000, 0), NotAfter: time.Unix(1800000000, 0)}
+	der, err := x509.CreateCertificate(sub, tmpl, parent, pub, caPriv)
+	if err != nil {
+		fmt.Fprintln(os.Stderr, "certSPKI:", tag, err)
+		return
+	}
+	cert, err := x509.ParseCertificate(der)
+	if err != nil {
+		fmt.Fprintln(os.Stderr, "certSPKI parse:", tag, err)
+		return
+	}
+	in := SL{SB(cert.RawSubjectPublicKeyInfo), oracleSPKI(cert.RawSubjectPublicKeyInfo), spec}
+	g.c.Emit("certspki:"+tag, in, guard(func() Sx {
+		i := file.VerifParseDERData(der)
+		for _, ch := range i.Children {
+			if ch.Description == "Public key" {
+				return ObsOk(InfoSx(ch))
+			}
+		}
+		return ObsErr()
+	}))
+}
+
 // ---------- end to end through file.Inspect ----------
 
 func (g *c02) e2e(e emitted) {
@@ -524,6 +561,9 @@ func (g *c02) rsaEverywhere(tag string, k rsaKey, full bool) {
 	g.der("pkcs1priv", tag, pkcs1Priv(k), base(nil, true))
 	g.der("spki", "rsa-"+tag, spkiRSA(k), base(nil, false))
 	g.der("pkcs8", "rsa-"+tag, pkcs8RSA(k), base(nil, true))
+	if full {
+		g.certSPKI("rsa-"+tag, &rsa.PublicKey{N: k.N, E: int(k.E.Int64())}, base(nil, false))
+	}
 	blob := blobRSA(k)
 	comment := genComment(r, 3)
 	cm := []kv{{"Type", "ssh-rsa"}, {"Comment", comment}}
@@ -647,6 +687,9 @@ func (g *c02) ecEverywhere(k ecKey) {
 	g.der("spki", "ec-named-"+tag, spkiEC(k, false), named(nil, false))
 	g.der("pkcs8", "ec-named-"+tag, pkcs8EC(k, false), named(nil, true))
 	g.der("ecparams", "named-"+tag, derOID(k.oid...), noSpec)
+	if x, y := elliptic.Unmarshal(k.curve, k.point); x != nil {
+		g.certSPKI("ec-"+tag, &ecdsa.PublicKey{Curve: k.curve, X: x, Y: y}, named(nil, false))
+	}
 	g.der("sec1", "explicit-"+tag, sec1(k, true, true), explicit(true))
 	g.der("spki", "ec-explicit-"+tag, spkiEC(k, true), explicit(false))
 	g.der("pkcs8", "ec-explicit-"+tag, pkcs8EC(k, true), explicit(true))
@@ -701,6 +744,7 @@ func (g *c02) edwards() {
 		g.der("pkcs8", c.name, pkcs8Raw(c.oid, priv), specSx(c.alg, nil, "Curve", c.name, nil, [][]byte{priv}))
 	}
 	pub, priv := r.Bytes(32), r.Bytes(32)
+	g.certSPKI("ed25519", ed25519.PublicKey(pub), specSx("EdDSA", nil, "Curve", "Ed25519", nil, nil))
 	blob := blobEd25519(pub)
 	comment := genComment(r, 3)
 	cm := []kv{{"Type", "ssh-ed25519"}, {"Comment", comment}}
@@ -998,11 +1042,11 @@ func genC02(c *Ctx) {
 	if c.Thorough() {
 		lengths = nil
 		for l := 256; l <= 8192; l++ {
-			if l <= 2100 || l%61 == 0 || l%8 == 7 && l%5 == 0 || l > 8180 {
+			if l <= 600 || l%97 == 0 || l > 8188 {
 				lengths = append(lengths, l)
 			}
 		}
-		extra = 200
+		extra = 60
 	}
 	for i := 0; i < extra; i++ {
 		lengths = append(lengths, 256+r.Intn(8192-256+1))
@@ -1060,7 +1104,7 @@ func genC02(c *Ctx) {
 	// ---- the arithmetic core and the KDF options on their own ----
 	ni, nk := 120, 150
 	if c.Thorough() {
-		ni, nk = 4000, 5000
+		ni, nk = 2000, 3000
 	}
 	g.integers(ni)
 	g.kdfCases(nk)
@@ -1079,7 +1123,7 @@ func genC02(c *Ctx) {
 	// ---- malformed stream derived from the valid instances ----
 	per := 2
 	if c.Thorough() {
-		per = 12
+		per = 5
 	}
 	g.malformed(per)
 }
